@@ -485,13 +485,21 @@ def op_invoke_receipt_missing(ids, frm):
                 frm=frm, body=("bvm", ("jw", ids.key("c:interbroker", "CallbackCounter"), "OBS", ("fail", False))), invalid=False, tag="write_then_fail")
 
 
-def resolve_obs_values(body, ids, ob_state):
-    """replace the "OBS" placeholder by the value the implementation left (only matters when the write persists)"""
+def resolve_obs_values(body, ids, ob_state, shadow_store=None):
+    """replace the "OBS" placeholder by the value the implementation left (only matters when the write persists);
+    when the key is not in the block's diff (e.g. deleted and re-created with the same content) the value the
+    implementation held before the block is used"""
+    def before(k):
+        for (cs, ks), v in (shadow_store or {}).items():
+            if v is not None and ids.key(cs, ks) == k:
+                return ids.val(v)
+        return 1
+
     def fix(p):
         if p[0] == "jw":
             v = p[2]
             if v == "OBS":
-                v = 1
+                v = before(p[1])
                 for s in ob_state or []:
                     if ids.key(s[0], s[1]) == p[1] and s[3] is not None:
                         v = ids.val(s[3])
@@ -499,7 +507,7 @@ def resolve_obs_values(body, ids, ob_state):
         if p[0] == "raw":
             v = p[2]
             if v == "OBS":
-                v = 1
+                v = before(p[1])
                 for s in ob_state or []:
                     if ids.key(s[0], s[1]) == p[1] and s[3] is not None:
                         v = ids.val(s[3])
@@ -518,7 +526,7 @@ def resolve_obs_values(body, ids, ob_state):
     if body[0] in ("bvm", "ibtp"):
         return (body[0], fix(body[1]))
     if body[0] == "putabsent" and body[2] == "OBS":
-        v = 1
+        v = before(body[1])
         for s in ob_state or []:
             if ids.key(s[0], s[1]) == body[1] and s[3] is not None:
                 v = ids.val(s[3])
@@ -562,7 +570,7 @@ class Run:
         ids, sh = self.ids, self.sh
         ctxs, keys, accts = [], [], ["a:%d" % i for i in range(self.admins)]
         for o in ops:
-            body = resolve_obs_values(o["body"], ids, ob.get("state"))
+            body = resolve_obs_values(o["body"], ids, ob.get("state"), sh.store)
             ctxs.append("{| c_from := %s; c_nonce := %s; c_body := %s; c_invalid := %s |}" % (
                 gNn(acct_id(o["frm"])), gNn(self.take_nonce(o["tx"])), gcbody2(body), gbool(o["invalid"])))
             keys += body_keys(body)
